@@ -26,7 +26,37 @@ from rules import core, registry  # noqa: E402
 sys.setrecursionlimit(20000)
 
 
-ALWAYS = ("ANCHOR", "FLOOR", "ENGINE", "BUILD", "SHAPE")
+ALWAYS = ("ANCHOR", "FLOOR", "ENGINE", "BUILD", "SHAPE", "SPECIMEN")
+
+
+def blame_specimen(err):
+    """Which properties a specimen build failure is attributed to: errors inside query functions -> C05 (a well-formed
+    query must compile and bind each parameter to its own column); otherwise the generated world items -> C14/C15."""
+    import re
+    lines = []
+    for m in re.finditer(r"--> (src/\w+\.rs):(\d+)", err):
+        lines.append((m.group(1), int(m.group(2))))
+    msgs = re.findall(r"^error(?:\[E\d+\])?: (.*)$", err, re.M)
+    first = (msgs[0] if msgs else "compile error")[:160]
+    fn_name = "?"
+    in_query = False
+    for (f, l) in lines:
+        try:
+            src = open(os.path.join(VERIF, "specimen", f)).read().split("\n")
+        except OSError:
+            continue
+        for i in range(min(l, len(src)) - 1, -1, -1):
+            mm = re.match(r"\s*pub fn (\w+)", src[i])
+            if mm:
+                fn_name = mm.group(1)
+                break
+        if re.match(r"^(find_|iter_)", fn_name):
+            in_query = True
+            break
+    where = "specimen/%s:%d (%s)" % (lines[0][0], lines[0][1], fn_name) if lines else None
+    if in_query:
+        return (("C05",), "query", "%s (in %s)" % (first, fn_name), where)
+    return (("C14", "C15"), "world", "%s (in %s)" % (first, fn_name), where)
 
 
 def pack(R, spec, wall):
@@ -63,19 +93,28 @@ def analyse_config(args):
         out["error"] = "loading facts failed:\n" + traceback.format_exc()
         return out
     out["t_extract_load"] = round(time.time() - t0, 1)
+    spec_blame = None
+    if ctx.spec is None:
+        spec_blame = blame_specimen(ctx.spec_error)
     for pid in props:
         spec = registry.PROPS[pid]
         R = core.Report(pid)
         R.config = cfg.name
         t1 = time.time()
+        if ctx.spec is None and pid in spec_blame[0]:
+            R.violations.append(core.Violation("SPECIMEN", "client-program-no-longer-compiles|%s" % spec_blame[1], "the specimen client crate (a valid forbid(unsafe_code) program using every macro and parameter kind) "
+                                               "no longer compiles against this tree although gecs and gecs_macros build: %s" % spec_blame[2], spec_blame[3], cfg.name))
         for fn in spec.get("mir_rules", []):
+            if ctx.spec is None and (fn.__module__.endswith("r_spec") or getattr(fn, "needs_spec", False)):
+                R.note("rule %s skipped: the specimen does not build (attributed to %s)" % (fn.__name__, ",".join(spec_blame[0])))
+                continue
             try:
                 fn(ctx, R)
             except Exception:
                 R.violations.append(core.Violation("ENGINE", fn.__name__, "rule crashed (fail closed):\n" + traceback.format_exc()[-1500:], None, cfg.name))
         for rule, floor in spec.get("floors", {}).items():
             fl = floor(ctx) if callable(floor) else floor
-            if fl is not None:
+            if fl is not None and not (ctx.spec is None and R.counts.get(rule, 0) == 0):
                 R.floor(rule, fl)
         out["props"][pid] = pack(R, spec, time.time() - t1)
     out["wall"] = round(time.time() - t0, 1)
